@@ -1,0 +1,24 @@
+//go:build verif
+
+package discard
+
+// Contracts for govc (see /verif/DESIGN.md). Comment-only file: it adds no code.
+
+// The chained hook accepts a response only after every hook of the chain has been consulted and
+// has accepted it; it rejects as soon as one hook rejects.
+//@ func (*Builder).Build$1
+//@   property C02
+//@   requires b != nil
+//@   local nCalled int = 0
+//@   local anyDiscard int = 0
+//@   after dyn(hook)#1: nCalled = nCalled + 1; anyDiscard = ite(opResult0, 1, anyDiscard)
+//@   loop range invariant [consulted] nCalled == rangeindex + 1 && anyDiscard == 0
+//@   ensures [all-consulted] @C02 !result0 ==> nCalled == old(len(b.hooks)) && anyDiscard == 0 // C02: discard hook chain built from cloudflare + warc-discard-status hooks (a response is accepted only if every hook of the chain was consulted and accepted it)
+//@   ensures [reject-first] @C02 result0 ==> anyDiscard == 1 // C02: responses the discard policy rejects are never written (the chain rejects as soon as one hook rejects)
+
+// The default chain holds both hooks.
+//@ func (*Builder).AddDefaultHooks
+//@   property C02
+//@   requires b != nil
+//@   modifies b.hooks, elem::warc.DiscardHook
+//@   ensures [both-hooks] @C02 len(b.hooks) == old(len(b.hooks)) + 2 && b.hooks[old(len(b.hooks))] == cloudflare.ChallengePageHook && b.hooks[old(len(b.hooks)) + 1] == warcdiscardstatus.WARCDiscardStatusHook // C02: discard hook chain built from cloudflare + warc-discard-status hooks
